@@ -33,20 +33,25 @@ def task(name: str, item: Any) -> dict[str, Any]:
     for off, m in smap:
         n += 1
         if off not in offsets:
-            return {"status": "harness_error", "what": f"map key {off} is not an input offset\n{text[:400]}"}
+            return {"status": "violation", "kind": "map-key", "program": item,
+                    "what": f"source-map key {off} is not the offset of an input op", "witness": {"text": text[:800]}}
         if not (0 <= m.line < len(lines)) or m.column >= len(lines[m.line]) or lines[m.line][m.column] == " " \
                 or lines[m.line][:m.column].strip(" ") not in ("", "}"):
-            return {"status": "harness_error",
-                    "what": f"entry {off} -> ({m.line},{m.column}) does not point at the start of a statement:\n{text[:600]}"}
+            return {"status": "violation", "kind": "map-position", "program": item,
+                    "what": f"entry {off} -> line {m.line} column {m.column} does not point at the start of a statement",
+                    "witness": {"text": text[:1200]}}
     return {"status": "ok", "routines": 0, "equal": 0, "sample": {"entries": n, "lines": len(lines)}}
+
+
+def replay(name: str, item_repr: str, witness: Any) -> bool:
+    return task(name, trun.parse_prog(item_repr))["status"] != "violation"
 
 
 def run(tier: str, seed: int, known: list[dict[str, Any]]) -> dict[str, Any]:
     items: list[tuple[str, Any]] = [p for i, p in enumerate(programs(tier, seed)) if tier != "quick" or i % 2 == 0]
     items += list(f6_raw(seed, 200 if tier == "quick" else 4000))
     r = trun.run_family("C09", "C09.E3", task, items, known, pC02.classify, bounds="F6 inputs: map keys and positions vs the text")
-    r["engine"] = "V"
     r["headline"] = f"{r['programs']} concrete inputs: every map entry is keyed by an input offset and points at the first " \
-                    f"character of a statement line (model validation), {len(r['harness_errors'])} failures"
+                    f"character of a statement line, {r['disagreements_checked']} violations"
     r["obligations"] = r["discharged"] = r["distinct_nontrivial"] = 0
     return r
